@@ -34,7 +34,22 @@ def _container_steps(A: Analysis, fn: FuncInfo) -> dict:
                 flag = "".join(str(v.value) for v in n.values if isinstance(v, ast.Constant)).split()[0] if any(isinstance(v, ast.Constant) for v in n.values) else ""
                 facts["mount_fstring"] = n
                 facts["mount_flag"] = flag.strip(":")
-                facts["mount_parts"] = [norm(v.value) for v in n.values if isinstance(v, ast.FormattedValue)]
+                # name-independent shape of the three parts: loop targets of `for k, v in mounts.items()`
+                tgt = None
+                for p in parents(n):
+                    if isinstance(p, (ast.For, ast.comprehension)) and facts["mounts_var"] in norm(p.iter):
+                        tgt = p.target
+                        break
+                    if isinstance(p, (ast.ListComp, ast.GeneratorExp)):
+                        for g in p.generators:
+                            if facts["mounts_var"] in norm(g.iter):
+                                tgt = g.target
+                mp = {}
+                if isinstance(tgt, ast.Tuple) and len(tgt.elts) == 2 and all(isinstance(e, ast.Name) for e in tgt.elts):
+                    mp = {tgt.elts[0].id: "key", tgt.elts[1].id: "val"}
+                from ..model import alpha as _alpha
+
+                facts["mount_parts"] = [_alpha(v.value, mp) for v in n.values if isinstance(v, ast.FormattedValue)]
     # working dir
     for c in A.calls(fn):
         if isinstance(c.func, ast.Attribute) and c.func.attr == "extend" and c.args and isinstance(c.args[0], ast.List) and len(c.args[0].elts) == 2 and isinstance(c.args[0].elts[0], ast.Constant) and "cache_dir" in norm(c.args[0].elts[1]):
